@@ -1,7 +1,7 @@
 (* C20 — the discipline instantiated at the table regenerated from the Go source
    (Gen/LockSet.v).  Everything here is re-checked by vm_compute on every run. *)
 From Coq Require Import String List NArith Bool.
-From SeataV Require Import Conc.LockSet Conc.LockSetProofs Conc.LockSetListing Conc.Accounting Conc.AccountingProofs.
+From SeataV Require Import Conc.LockSet Conc.LockSetProofs Conc.LockSetListing Conc.Accounting Conc.AccountingProofs Conc.Reent Conc.ReentProofs.
 From SeataV Require Gen.LockSet.
 Import ListNotations.
 Open Scope string_scope.
@@ -80,3 +80,19 @@ Definition refresh_unit : unit_kind := if refresh_closed then URefreshFixed else
 Definition undo_closed : bool :=
   forallb (fun r => negb (fst (fst r) =? "datasource/sql/undo/base.BaseUndoLogManager.Undo") || snd r) ls_brackets.
 Definition undo_unit : unit_kind := UAtPhase2 undo_closed.
+
+(* no re-entrant locking, at the tables regenerated from the source *)
+Definition ls_funcs := SeataV.Gen.LockSet.ls_funcs.
+Definition ls_held_calls := SeataV.Gen.LockSet.ls_held_calls.
+
+Lemma reent_table_check : reent_check ls_funcs ls_held_calls = true.
+Proof. vm_compute. reflexivity. Qed.
+
+Theorem no_reentrant_lock_at_table :
+  forall h, In h ls_held_calls -> ~ MayAcquire ls_funcs (hc_callee h) (hc_lock h).
+Proof. exact (reent_check_sound ls_funcs ls_held_calls reent_table_check). Qed.
+
+Lemma reent_table_nonvacuous :
+  negb (Nat.eqb (length ls_held_calls) 0)
+  && existsb (fun r => negb (Nat.eqb (length (f_may r)) 0)) ls_funcs = true.
+Proof. vm_compute. reflexivity. Qed.
